@@ -551,7 +551,7 @@ RULES = {
 }
 EXPECTED_PROBES = {
     "C10": ["helper-timeout", "helper-killed", "helper-intrinsic-never-ends", "helper-intrinsic-blocked-on-stdin", "spawn_fail",
-            "crash", "nonzero", "garbage_out", "stderr_noise", "slow", "stall", "orphan", "drip"],
+            "crash", "nonzero", "garbage_out", "stderr_noise", "slow", "stall", "orphan", "drip", "linger"],
     "C11": ["helper-script-run", "helper-timeout"],
     "C14": ["eof-mid-line", "short_write", "helper-timeout"],
 }
